@@ -151,6 +151,12 @@ def scenarios_for(prop, tier, rng):
                     sc = el.shaped(rng, n, sh)
                     sc["id"] = sid() + "-" + sh
                     add(sc)
+        if not thorough:
+            # one start with many hundreds of lookups answered from the caches (anything that accumulates per lookup shows)
+            for sh in ("dense", "fanin"):
+                sc = el.shaped(rng, 90, sh)
+                sc["id"] = sid() + "-" + sh
+                add(sc)
     if prop == "C03":
         wr = el.WRAPS
         fam = []
